@@ -19,10 +19,10 @@ _NUMPY_NAMES: Optional[Set[str]] = None
 
 
 def numpy_dir() -> str:
+    import glob
     cands = []
-    ver = f"python{sys.version_info[0]}.{sys.version_info[1]}"
     for base in (sys.prefix, "/venv"):
-        cands.append(os.path.join(base, "lib", ver, "site-packages", "numpy"))
+        cands += sorted(glob.glob(os.path.join(base, "lib", "python3*", "site-packages", "numpy")))
     for c in cands:
         if os.path.isfile(os.path.join(c, "__init__.pyi")):
             return c
